@@ -31,6 +31,13 @@ class Result:
         self.sample = None
 
 
+def _short(x, limit=160):
+    if isinstance(x, tuple) and len(x) == 2 and isinstance(x[1], (bytes, bytearray)) and len(x[1]) > 48:
+        return "(%r, <%d bytes: %s...%s>)" % (x[0], len(x[1]), x[1][:12].hex(), x[1][-6:].hex())
+    r = repr(x)
+    return r if len(r) <= limit else r[:limit] + "...(%d chars)" % len(r)
+
+
 def norm_exc(exc):
     return ("raise", type(exc).__name__)
 
@@ -45,7 +52,7 @@ def replay(make, hist):
             s.close()
             raise
         if r != m:
-            return s, "after %r: operation %r gives %r, reference model says %r" % (list(hist[:i]), op, r, m)
+            return s, "after %r: operation %r gives %s, reference model says %s" % (list(hist[:i]), op, _short(r), _short(m))
     return s, None
 
 
